@@ -159,3 +159,137 @@ Theorem C14_kfl_layer_equals_dense : forall tensor c p pt dims,
                            (dense_of_kfl (KFL.c_size c) dims units p) [pt]) []).
 Proof. exact kfl_layer_equals_dense. Qed.
 Print Assumptions C14_kfl_layer_equals_dense.
+
+(* ====================================================================== *)
+(* Additions after the coverage review (proofs: Proofs/RepresentationsMore.v) *)
+(* ====================================================================== *)
+From TFL Require Import Proofs.CondPWL Proofs.RepresentationsMore.
+
+(* (b1) ONE statement for the three missing-value configurations of
+   pwl_calibration_fn (none; given missing_output_value; DERIVED missing
+   output): the slice equals the PWLCalibration layer formula
+   mixv = is_missing * v + (1 - is_missing) * calibration, where
+   missing_output is the value the function uses (C14_pwl_missing_output_value). *)
+Theorem C14_pwl_row_equals_layer_any : forall sm sg c kip kop x,
+  nonzero (CondPWL.key_deltas sm c kip) ->
+  let ks := layer_keypoints (CondPWL.p_imin c) (CondPWL.key_deltas sm c kip) in
+  let f := PWLEval.pwl_fn (PWLEval.kp_lefts ks) (PWLEval.kp_diffs ks) (CondPWL.derived_outputs sm sg c kop) x in
+  CondPWL.pwl_row sm sg c kip kop x == mixv (CondPWL.p_min c) (missing_output sg c kop) x f.
+Proof. exact pwl_row_equals_layer_any. Qed.
+Print Assumptions C14_pwl_row_equals_layer_any.
+
+Theorem C14_pwl_missing_output_value : forall sg c kop,
+  missing_output sg c kop =
+  match CondPWL.p_min c with
+  | None => None
+  | Some _ => match CondPWL.p_mout c with
+              | Some v => Some v
+              | None => Some (CondPWL.p_omin c + sg (last kop 0) * CondPWL.rng_out c)
+              end
+  end.
+Proof. exact missing_output_cases. Qed.
+Print Assumptions C14_pwl_missing_output_value.
+
+(* (b1) DERIVED missing output (missing_input_value = m, missing_output_value
+   not given): the function equals the layer built with impute_missing,
+   missing_input_value m and missing_output_value
+   v = output_min + sigmoid(LAST output parameter) * (output_max - output_min),
+   holding the kernel column derived from the parameters WITHOUT the last one
+   (which is also what return_derived_parameters reports). *)
+Theorem C14_pwl_fn_equals_layer_missing_derived : forall sm sg c kip kop x m,
+  CondPWL.p_min c = Some m -> CondPWL.p_mout c = None -> nonzero (CondPWL.key_deltas sm c kip) ->
+  let ks := layer_keypoints (CondPWL.p_imin c) (CondPWL.key_deltas sm c kip) in
+  let kos := CondPWL.kernel_outputs sm sg c (removelast kop) in
+  let f := PWLEval.pwl_fn (PWLEval.kp_lefts ks) (PWLEval.kp_diffs ks) kos x in
+  let v := CondPWL.p_omin c + sg (last kop 0) * (CondPWL.p_omax c - CondPWL.p_omin c) in
+  let mu := if Qeq_bool x m then 1 else 0 in
+  CondPWL.derived_outputs sm sg c kop = kos /\
+  CondPWL.pwl_row sm sg c kip kop x == mu * v + (1 - mu) * f.
+Proof. exact pwl_fn_equals_layer_missing_derived. Qed.
+Print Assumptions C14_pwl_fn_equals_layer_missing_derived.
+
+(* (b1) THE WHOLE FUNCTION CondPWL.pwl_fn (size check, rank-2 -> rank-3,
+   tiling over units, broadcasting over batch and units): every entry [b][u] of
+   an accepted call equals the layer formula on the keypoints / kernel column
+   derived from the (b, u) slices of the parameter tensors. *)
+Theorem C14_pwl_fn_entries_equal_layer : forall sm sg c inputs kip kop out b u,
+  CondPWL.pwl_fn sm sg c inputs kip kop = Some out -> (b < length out)%nat -> (u < CondPWL.p_units c)%nat ->
+  let kipS := slice_kip c kip b u in
+  let kopS := slice_kop c kop b u in
+  let x := slice_x c inputs b u in
+  nonzero (CondPWL.key_deltas sm c kipS) ->
+  let ks := layer_keypoints (CondPWL.p_imin c) (CondPWL.key_deltas sm c kipS) in
+  nth u (nth b out []) 0 ==
+  mixv (CondPWL.p_min c) (missing_output sg c kopS) x
+       (PWLEval.pwl_fn (PWLEval.kp_lefts ks) (PWLEval.kp_diffs ks) (CondPWL.derived_outputs sm sg c kopS) x).
+Proof. exact pwl_fn_entries_equal_layer. Qed.
+Print Assumptions C14_pwl_fn_entries_equal_layer.
+
+(* (b1) the MULTI-UNIT PWLCalibration layer (fixed, shared input keypoints ks,
+   kernel [num_keypoints][units]) on a row of [units] values or one broadcast
+   value: unit u is the single-unit calibration function on column u. *)
+Theorem C14_pwl_layer_call_multi : forall units ks kernel row,
+  length row = units \/ length row = 1%nat ->
+  PWLEval.pwl_call (PWLEval.build_fixed units ks false kernel false None None [] false) false [row] None =
+  Some [[map (fun u => PWLEval.pwl_fn (PWLEval.kp_lefts ks) (PWLEval.kp_diffs ks) (column u kernel)
+                         (nth (if (length row =? 1)%nat then 0%nat else u) row 0))
+             (seq 0 units)]].
+Proof. exact pwl_layer_call_multi. Qed.
+Print Assumptions C14_pwl_layer_call_multi.
+
+(* (b2) the deliberate exception, made precise: with reduction
+   'geometric_mean' cdf_fn and the CDF layer apply THE SAME function
+   exp(mean_i log(M[i][u] + eps)) to their (equal, by C14_cdf_fn_equals_layer)
+   'none' results Mf / Ml; the only difference is eps = 1e-8 (cdf_fn) vs
+   1e-3 (layer). *)
+Theorem C14_cdf_geometric_only_eps : forall sg ex lg a units sf kernel scaling x,
+  (forall p q, p == q -> sg p == sg q) ->
+  length x = length kernel -> CDF.verify_cdf a CDF.RGeo (length x) units sf kernel = true ->
+  let sp := Some (cdf_scaling_param (length x) scaling) in
+  exists Mf Ml,
+    CDF.cdf_fn sg ex lg a CDF.RNone units sf None x kernel sp = Some Mf /\
+    CDF.cdf_layer sg ex lg a CDF.RNone units sf kernel scaling x = Some Ml /\
+    meq Mf Ml /\
+    CDF.cdf_fn sg ex lg a CDF.RGeo units sf None x kernel sp = Some (geo_of ex lg CDF.eps_fn units Mf) /\
+    CDF.cdf_layer sg ex lg a CDF.RGeo units sf kernel scaling x = Some (geo_of ex lg CDF.eps_layer units Ml).
+Proof. exact cdf_geometric_only_eps. Qed.
+Print Assumptions C14_cdf_geometric_only_eps.
+
+(* hypotheses are satisfiable *)
+Example C14_ex_pwl_derived_missing :
+  CondPWL.p_min ex_pcfg_d = Some (-(1)) /\ CondPWL.p_mout ex_pcfg_d = None /\
+  nonzero (CondPWL.key_deltas ex_sm ex_pcfg_d (Some [1])) /\
+  CondPWL.pwl_row ex_sm ex_sg ex_pcfg_d (Some [1]) [0; 0; 5] (-(1)) == 1 # 2.
+Proof. exact ex_pwl_derived_missing_hyps. Qed.
+Example C14_ex_pwl_fn :
+  exists out, CondPWL.pwl_fn ex_sm ex_sg ex_pcfg_u2 [[1#4]; [3#4]] (Some (CondPWL.P2 [[1]])) (CondPWL.P3 [[[0; 0; 0]; [1; 2; 0]]]) = Some out /\
+  length out = 2%nat /\
+  nonzero (CondPWL.key_deltas ex_sm ex_pcfg_u2 (slice_kip ex_pcfg_u2 (Some (CondPWL.P2 [[1]])) 1 1)).
+Proof. exact ex_pwl_fn_hyps. Qed.
+Example C14_ex_cdf_geo :
+  CDF.verify_cdf CDF.Relu6 CDF.RGeo 2 1 1 ex_cdf_kernel = true /\ length [1#2; 1#4] = length ex_cdf_kernel.
+Proof. exact ex_cdf_geo_hyps. Qed.
+
+(* (b1) the derived parameters RETURNED with return_derived_parameters=True
+   (CondPWL.pwl_derived: one list per (batch, unit) position of the tiled
+   parameter tensors), read with broadcasting at (b, u), ARE the key_deltas /
+   derived_outputs of the (b, u) slices that C14_pwl_fn_entries_equal_layer
+   uses.  bsel_ok i l: axis of size 1 or i inside it (true for every accepted
+   rectangular call; Example C14_ex_pwl_derived_slices). *)
+Theorem C14_pwl_derived_slices : forall sm sg c kip kop b u,
+  let K := CondPWL.tile1 (CondPWL.p_units c) (CondPWL.to3 kop) in
+  bsel_ok b K -> bsel_ok u (CondPWL.bsel [] b K) ->
+  CondPWL.bsel [] u (CondPWL.bsel [] b (snd (CondPWL.pwl_derived sm sg c kip kop))) =
+    CondPWL.derived_outputs sm sg c (slice_kop c kop b u) /\
+  (forall t, kip = Some t ->
+     let T := CondPWL.tile1 (CondPWL.p_units c) (CondPWL.to3 t) in
+     bsel_ok b T -> bsel_ok u (CondPWL.bsel [] b T) ->
+     Some (CondPWL.bsel [] u (CondPWL.bsel [] b (fst (CondPWL.pwl_derived sm sg c kip kop)))) =
+       option_map (fun p => CondPWL.key_deltas sm c (Some p)) (slice_kip c kip b u)).
+Proof. exact pwl_derived_slices. Qed.
+Print Assumptions C14_pwl_derived_slices.
+Example C14_ex_pwl_derived_slices :
+  let K := CondPWL.tile1 2 (CondPWL.to3 (CondPWL.P3 [[[0; 0; 0]; [1; 2; 0]]])) in
+  bsel_ok 1 K /\ bsel_ok 1 (CondPWL.bsel [] 1 K) /\
+  let T := CondPWL.tile1 2 (CondPWL.to3 (CondPWL.P2 [[1]])) in bsel_ok 1 T /\ bsel_ok 1 (CondPWL.bsel [] 1 T).
+Proof. exact ex_pwl_derived_slices_hyps. Qed.
